@@ -10,14 +10,17 @@ import (
 	"fmt"
 	"github.com/gotid/god/api/chain"
 	"github.com/gotid/god/api/handler"
+	"github.com/gotid/god/lib/prometheus"
 	"github.com/gotid/god/lib/stat"
 	"google.golang.org/grpc/codes"
 	"google.golang.org/grpc/status"
 	"io"
+	"net"
 	"net/http"
 	"net/http/httptest"
 	"net/http/httptrace"
 	"net/textproto"
+	"os"
 	"strconv"
 	"strings"
 	"sync"
@@ -61,6 +64,8 @@ type verifC02Case struct {
 	RTimeoutMs int64            `json:"rtimeout_ms"` // WithTimeout on the route, 0 = option absent
 	Verbose    bool             `json:"verbose"`     // Config.Verbose: DetailedLogHandler instead of LogHandler
 	HoldMs     int64            `json:"hold_ms"`     // the handler is kept parked in front of action K for that long (0: never parked)
+	Route      string           `json:"route"`       // route pattern (default /verif), e.g. /user/:id
+	ReqPath    string           `json:"reqpath"`     // raw request path the client sends (default: the route), e.g. /user/%ff
 	Cancel     bool             `json:"cancel"`      // instead of waiting for a deadline the CLIENT cancels while the handler is parked
 	Hdrs       []verifC02ReqHdr `json:"hdrs"`        // request headers with degenerate values
 	Full       bool             `json:"full"`        // every built-in middleware active (name, max conns, max bytes, shedding)
@@ -703,7 +708,14 @@ func verifC02RunConfig(c *verifC02Case, k int) (obs map[string]any, valid bool) 
 		cfg.Name, cfg.MaxConns, cfg.MaxBytes, cfg.CpuThreshold = "verif-c02", 100, 1<<20, 1000
 	}
 	ng := newEngine(cfg)
-	fr := featuredRoutes{routes: []Route{{Method: http.MethodPost, Path: "/verif", Handler: h}}}
+	routePath, reqPath := "/verif", "/verif"
+	if c.Route != "" {
+		routePath, reqPath = c.Route, c.Route
+	}
+	if c.ReqPath != "" {
+		reqPath = c.ReqPath
+	}
+	fr := featuredRoutes{routes: []Route{{Method: http.MethodPost, Path: routePath, Handler: h}}}
 	if c.RTimeoutMs > 0 {
 		WithTimeout(time.Duration(c.RTimeoutMs) * time.Millisecond)(&fr) // the route option, as AddRoutes applies it
 	}
@@ -726,7 +738,7 @@ func verifC02RunConfig(c *verifC02Case, k int) (obs map[string]any, valid bool) 
 	resc := make(chan result, 1)
 	cctx, ccancel := context.WithCancel(context.Background())
 	defer ccancel()
-	go func() { resc <- verifC02PostCtx(cctx, srv.URL+"/verif", c.Hdrs) }()
+	go func() { resc <- verifC02PostCtx(cctx, srv.URL+reqPath, c.Hdrs) }()
 
 	valid = true
 	var res result
@@ -938,12 +950,93 @@ func verifC02RunBreaker(c *verifC02Case) map[string]any {
 	return map[string]any{"total": c.Total, "rejected": rejected, "failed": failed, "other": other}
 }
 
+type verifC02BlockingWriter struct{ block chan struct{} }
+
+func (w *verifC02BlockingWriter) Write(*stat.StatReport) error {
+	<-w.block
+	return nil
+}
+
+// verifC02RunLoad: a stalled stat report writer and Total requests of a fast handler through ONE route (one metrics
+// instance) of the full engine chain: every request must be answered by the handler, quickly.
+func verifC02RunLoad(c *verifC02Case) map[string]any {
+	bw := &verifC02BlockingWriter{block: make(chan struct{})}
+	stat.SetReportWriter(bw)
+	defer func() {
+		close(bw.block)
+		stat.SetReportWriter(nil)
+	}()
+	h := func(w http.ResponseWriter, r *http.Request) {
+		w.WriteHeader(http.StatusOK)
+		w.Write([]byte("ok"))
+	}
+	cfg := Config{Timeout: c.GTimeoutMs, MaxConns: 100, MaxBytes: 1 << 20}
+	cfg.Name = "verif-c02-load"
+	ng := newEngine(cfg)
+	ng.addRoutes(featuredRoutes{routes: []Route{{Method: http.MethodPost, Path: "/verif", Handler: h}}})
+	rt := router.NewRouter()
+	if err := ng.bindRoutes(rt); err != nil {
+		return map[string]any{"error": err.Error()}
+	}
+	var answered, bad, maxMs int64
+	step := make(chan struct{}, 1)
+	done := make(chan struct{})
+	go func() {
+		defer close(done)
+		for i := 0; i < c.Total; i++ {
+			rec := httptest.NewRecorder()
+			req := httptest.NewRequest(http.MethodPost, "http://localhost/verif", nil)
+			t0 := time.Now()
+			rt.ServeHTTP(rec, req)
+			ms := time.Since(t0).Milliseconds()
+			if ms > atomic.LoadInt64(&maxMs) {
+				atomic.StoreInt64(&maxMs, ms)
+			}
+			if rec.Code == http.StatusOK && rec.Body.String() == "ok" {
+				atomic.AddInt64(&answered, 1)
+			} else {
+				atomic.AddInt64(&bad, 1)
+			}
+			select {
+			case step <- struct{}{}:
+			default:
+			}
+		}
+	}()
+	hung := false
+	for waiting := true; waiting; {
+		select {
+		case <-done:
+			waiting = false
+		case <-step:
+		case <-time.After(verifC02HangLimit): // no request completed for seconds: the request path is blocked
+			hung, waiting = true, false
+		}
+	}
+	return map[string]any{"total": c.Total, "answered": atomic.LoadInt64(&answered), "bad": atomic.LoadInt64(&bad),
+		"max_ms": atomic.LoadInt64(&maxMs), "hung": hung}
+}
+
 func TestVerifDriverC02(t *testing.T) {
 	logx.Disable()
+	if os.Getenv("VERIF_C02_PROM") == "1" {
+		// this driver process has Prometheus metrics ENABLED (the agent serves them on a free loopback port), as a
+		// service configured with a Prometheus section has: the metric vectors of the handlers really record
+		l, err := net.Listen("tcp", "127.0.0.1:0")
+		if err != nil {
+			t.Fatal(err)
+		}
+		port := l.Addr().(*net.TCPAddr).Port
+		l.Close()
+		prometheus.StartAgent(prometheus.Config{Host: "127.0.0.1", Port: port, Path: "/metrics"})
+	}
 	verifdrv.Run(t, func(raw json.RawMessage) any {
 		var c verifC02Case
 		if err := json.Unmarshal(raw, &c); err != nil {
 			return map[string]any{"error": err.Error()}
+		}
+		if c.Kind == "e2el" {
+			return verifC02RunLoad(&c)
 		}
 		if c.Kind == "e2ecn" {
 			if c.Guard == "breaker" {
